@@ -89,20 +89,53 @@ Definition negate (v : value) : value :=
     end
   end.
 
-Fixpoint sum_loop (l : list value) (r : dec) : outcome dec :=
-  match l with
-  | [] => Ok r
-  | v :: l' => match to_decimal v with None => Err EInvalidType | Some d => sum_loop l' (dec_add r d) end
+(* exactSum: the elements are added exactly (math/big.Rat in the Go code), so sum
+   and avg round once.  The exact total of finite decimals is kept as an
+   unrounded DFin (any coefficient size); from the first infinity or NaN on, the
+   remaining elements are added as decimals and that special value is the result. *)
+Definition exact_add (x y : dec) : dec :=
+  match x, y with
+  | DFin n1 c1 e1, DFin n2 c2 e2 =>
+    let '(a, b, e) := align c1 e1 c2 e2 in
+    let s := sgn n1 a + sgn n2 b in DFin (s <? 0) (Z.abs s) e
+  | _, _ => dec_add x y
   end.
+Definition is_fin (d : dec) : bool := match d with DFin _ _ _ => true | _ => false end.
+
+(* (total, special, finite) *)
+Fixpoint sum_loop (l : list value) (total special : dec) (finite : bool) : outcome (dec * dec * bool) :=
+  match l with
+  | [] => Ok (total, special, finite)
+  | v :: l' =>
+    match to_decimal v with
+    | None => Err EInvalidType
+    | Some d =>
+      let finite' := finite && is_fin d in
+      if finite' then sum_loop l' (exact_add total d) special true
+      else sum_loop l' total (dec_add special d) false
+    end
+  end.
+
+(* decimal128.FromRat: one rounding of an exact value *)
+Definition round_once (d : dec) : dec :=
+  match d with DFin n c e => fit n c e | _ => d end.
+
 Definition sum (v : value) : outcome value :=
   match v with
-  | VArr a => do r <- sum_loop a dec_zero; trap r
+  | VArr a =>
+    do r <- sum_loop a dec_zero dec_zero true;
+    let '(total, special, finite) := r in
+    trap (if finite then round_once total else special)
   | _ => Err EInvalidType
   end.
 Definition avg (v : value) : outcome value :=
   match v with
   | VArr [] => Ok VNull
-  | VArr a => do r <- sum_loop a dec_zero; trap (dec_quo r (dec_of_Z (Z.of_nat (length a))))
+  | VArr a =>
+    do r <- sum_loop a dec_zero dec_zero true;
+    let '(total, special, finite) := r in
+    (* the exact total divided by the length, rounded once: dec_quo performs exactly that on an unrounded dividend *)
+    trap (if finite then dec_quo total (DFin false (Z.of_nat (length a)) 0) else special)
   | _ => Err EInvalidType
   end.
 
